@@ -57,7 +57,7 @@ Proof. intros ->. now rewrite <- app_assoc. Qed.
 
 Lemma IA_step h s e : IA h s -> IA (h ++ [e]) (fst (mstep s e)).
 Proof.
-  intros [B A]. destruct e as [w k|m|w|w|w]; simpl.
+  intros [B A]. destruct e as [w k|m|w|w|w|w]; simpl.
   - (* MReq *) split.
     + intros w' k' v H. apply (aget_aset_some _ nat_eqb_spec) in H as [[-> H]|[_ H]].
       * inversion H; subst. exists h, []. reflexivity.
@@ -123,6 +123,11 @@ Proof.
     destruct (wget w (m_wait s)) as [[k v]|] eqn:E; simpl; apply G; simpl; auto.
     + intros w' k' v' H. now apply (aget_adel_some _ nat_eqb_spec) in H.
     + intros k' o' p H. now apply (aget_adel_some _ mkey_eqb_spec) in H.
+  - (* MReqFail *) split.
+    + intros w' k v H. destruct (B _ _ _ H) as (h1 & h2 & E').
+      exists h1, (h2 ++ [MReqFail w]). now apply split_snoc.
+    + intros k o p H. destruct (A _ _ _ H) as (m' & h1 & h3 & E' & K & T & W).
+      exists m', h1, (h3 ++ [MReqFail w]). repeat split; [now apply split_snoc|assumption..].
 Qed.
 
 Lemma IA_reach h : IA h (final mstep m_init h).
@@ -138,7 +143,7 @@ Lemma deliver_matches pre e w p :
   exists k m h1 h2 h3, pre = h1 ++ MReq w k :: h2 ++ MMsg m :: h3 /\ mkey_of m = k /\ m_tag m = p.
 Proof.
   destruct (IA_reach pre) as [B A]. set (s := final mstep m_init pre) in *.
-  destruct e as [w' k|m|w'|w'|w']; simpl.
+  destruct e as [w' k|m|w'|w'|w'|w']; simpl.
   - intros [].
   - destruct (mget (mkey_of m) (m_out s)) as [[o r]|]; simpl; [intros []|intros [H|[]]; discriminate].
   - destruct (wget w' (m_wait s)) as [[k [|v]]|] eqn:E; simpl; [intros []| |intros []].
@@ -149,6 +154,7 @@ Proof.
     exists k, m, h0, h2, h3. rewrite <- app_assoc in Ep. auto.
   - destruct (wget w' (m_wait s)) as [[k v]|]; simpl; [|intros []]. intros [H0|[]]; discriminate.
   - destruct (wget w' (m_wait s)) as [[k v]|]; simpl; [|intros []]. intros [H0|[]]; discriminate.
+  - intros [H0|[]]; discriminate.
 Qed.
 
 (* --------------------------------------------------------------------------
@@ -192,7 +198,7 @@ Local Transparent aset.
 Lemma IC_step h o s e : IC h o s -> IC (h ++ [e]) (o ++ snd (mstep s e)) (fst (mstep s e)).
 Proof.
   intros H p. specialize (H p). rewrite out_tags_app, msg_tags_app, !cnt_app.
-  destruct e as [w k|m|w|w|w]; simpl.
+  destruct e as [w k|m|w|w|w|w]; simpl.
   - pose proof (held_adel_le p k (m_out s)). unfold cnt in *; simpl. lia.
   - destruct (mget (mkey_of m) (m_out s)) as [[o' r]|] eqn:E; simpl.
     + pose proof (held_adel_le p (mkey_of m) (m_out s)). unfold cnt in *; simpl.
@@ -211,6 +217,7 @@ Proof.
     pose proof (held_adel_le p k (m_out s)). unfold cnt in *; simpl. lia.
   - destruct (wget w (m_wait s)) as [[k v]|] eqn:E; simpl; try (unfold cnt in *; simpl; lia).
     pose proof (held_adel_le p k (m_out s)). unfold cnt in *; simpl. lia.
+  - unfold cnt in *; simpl. lia.
 Qed.
 
 Global Opaque aset.
@@ -238,12 +245,12 @@ Qed.
 Definition m_mentionsb (w : nat) (x : mout) : bool :=
   match x with
   | MDeliver w' _ | MTimeoutErr w' | MKeyErr w' | MCancelled w' => Nat.eqb w' w
-  | MListen _ _ => false
+  | MListen _ _ | MSendErr _ => false
   end.
 Definition m_outcomes (w : nat) (o : list mout) : nat := length (filter (m_mentionsb w) o).
 
 Lemma m_mentionsb_spec w x : m_mentionsb w x = true <-> m_mentions w x.
-Proof. destruct x; simpl; try apply Nat.eqb_eq. split; [discriminate|intros []]. Qed.
+Proof. destruct x; simpl; try apply Nat.eqb_eq; (split; [discriminate|intros []]). Qed.
 
 Lemma pending_outcomes w o : m_pending w o -> m_outcomes w o = 0.
 Proof.
@@ -355,11 +362,26 @@ Proof.
     rewrite (pending_outcomes _ _ Pw). lia.
 Qed.
 
+(* an output that is nobody's outcome (a listener call, a failed send) *)
+Lemma I3_silent_out h o s x : (forall w, ~ m_mentions w x) -> I3 h o s -> I3 h (o ++ [x]) s.
+Proof.
+  intros Nx [A1 A2 B C D E]. split; auto.
+  - intros w k v H. destruct (A1 _ _ _ H) as [R P]. split; [assumption|].
+    intros y Hy. apply in_app_or in Hy as [Hy|[<-|[]]]; [now apply P|apply Nx].
+  - intros w k R P. apply (A2 w k R). intros y Hy. apply P. apply in_or_app; now left.
+  - intros k ow r H. destruct (B _ _ _ H) as [R C1]. split; [assumption|].
+    intros y Hy. apply in_app_or in Hy as [Hy|[<-|[]]]; [now apply C1|apply Nx].
+  - intros w k R C1. apply (C w k R). intros y Hy. apply C1. apply in_or_app; now left.
+  - intros w y Hy M. apply in_app_or in Hy as [Hy|[<-|[]]]; [now apply (D w y)|]. exfalso. now apply (Nx w).
+  - intros w. rewrite outcomes_snoc. destruct (m_mentionsb w x) eqn:Eb; [|specialize (E w); lia].
+    apply m_mentionsb_spec in Eb. exfalso. now apply (Nx w).
+Qed.
+
 Lemma I3_step h o s e :
   m_fresh (h ++ [e]) -> I3 h o s -> I3 (h ++ [e]) (o ++ snd (mstep s e)) (fst (mstep s e)).
 Proof.
   intros F I. pose proof (fresh_prefix _ _ F) as F0.
-  destruct e as [w k|m|w|w|w]; simpl.
+  destruct e as [w k|m|w|w|w|w]; simpl.
   - (* MReq *)
     destruct (fresh_new _ _ _ F) as [Nw Nk]. destruct I as [A1 A2 B C D E]. rewrite app_nil_r.
     assert (Pw : m_pending w o).
@@ -421,6 +443,8 @@ Proof.
       try (rewrite app_nil_r; apply I3_noop; [intros; discriminate|assumption]).
     apply I3_noop; [intros; discriminate|].
     eapply I3_finish_del; eauto. reflexivity.
+  - (* MReqFail *)
+    apply I3_noop; [intros; discriminate|]. apply I3_silent_out; [intros w' []|assumption].
 Qed.
 
 Lemma I3_reach h : m_fresh h -> I3 h (outs mstep m_init h) (final mstep m_init h).
@@ -460,7 +484,7 @@ Proof.
   intros k ow r. rewrite final_snoc.
   assert (Ext : (exists w, In (MReq w k) h) -> exists w, In (MReq w k) (h ++ [e])).
   { intros [w Hw]. exists w. apply in_or_app; now left. }
-  set (s := final mstep m_init h) in *. destruct e as [w k'|m|w|w|w]; simpl.
+  set (s := final mstep m_init h) in *. destruct e as [w k'|m|w|w|w|w]; simpl.
   - intro H. apply (aget_aset_some _ mkey_eqb_spec) in H as [[-> _]|[_ H]].
     + exists w. apply in_or_app; right; now left.
     + eauto.
@@ -473,6 +497,7 @@ Proof.
     intro H. apply (aget_adel_some _ mkey_eqb_spec) in H as [_ H]. eauto.
   - destruct (wget w (m_wait s)) as [[k' v]|]; simpl; eauto.
     intro H. apply (aget_adel_some _ mkey_eqb_spec) in H as [_ H]. eauto.
+  - eauto.
 Qed.
 
 Lemma never_requested_listen pre m :
